@@ -7,14 +7,14 @@ from harness.common import Stream, hexb
 from harness.props.C02 import run_histories_fmt
 
 PID = "C03"
-LEAN_MODULES = ["Astm.Proofs.C03", "Astm.State.C03"]
+LEAN_MODULES = ["Astm.Proofs.C03", "Astm.State.C03", "Astm.Surface.C03"]
 THEOREMS = [
     "Astm.C03.deliveries_eq_spec", "Astm.C03.eot_delivers_exactly_the_acked",
     "Astm.C03.timeout_and_disconnect_deliver_nothing", "Astm.C03.only_eot_delivers",
     "Astm.C03.state_reset_at_end", "Astm.C03.no_leak_between_transfers", "Astm.C03.merged_message_valid",
     "Astm.C03.astm_byte_exact", "Astm.C03.lis2a_byte_exact", "Astm.C03.format_dispatch",
     "Astm.C03.example_sessions", "Astm.run_refines",
-    "Astm.C03.anchored_code_keeps_no_other_state",
+    "Astm.C03.anchored_code_keeps_no_other_state", "Astm.C03.anchored_code_keeps_its_signatures",
 ]
 RULE = ("sequences of 1-5 sessions on one connection; each session = ENQ, 0-3 messages split into 1-4 frames, text bytes "
         "from all 256 values except framing controls with a bias to >= 0x80, any frame of a run possibly damaged and "
@@ -69,6 +69,7 @@ def sessions(r, conformant=False):
                         evs.append(("d", damaged if r.random() < 0.5 else gens.corrupt(r, f)[0]))
                     meta["retransmissions"] = meta.get("retransmissions", 0) + 1
                 evs.append(("d", f))
+                meta.setdefault("_intended", set()).add(f)
             if len(frames) == 1 and r.random() < 0.12:
                 # the instrument repeats a message verbatim (lost ACK, or simply the same result twice): both copies
                 # are acknowledged and both belong to the delivery
@@ -119,9 +120,13 @@ def run(ctx):
             for fmt, evs, meta in hs[:400]:
                 if fmt in ("json", "@default"):
                     ref = oracles.RefReceiver("json")
+                    intended = set(meta.get("_intended", ())) | set(e[1] for e in gens.PROBE if e[0] == "d")
                     for ev in evs:
+                        acked_now = list(ref.acked or [])
                         exp = ref.expect(ev)
                         if exp["deliver"] is not None and exp["deliver"][0] == "json":
+                            if any(fr not in intended for fr in acked_now):
+                                continue      # a damaged frame whose checksum verifies by chance was acknowledged too
                             try:
                                 recv.to_json_real(exp["deliver"][1])
                             except Exception as e:  # noqa
